@@ -443,6 +443,15 @@ def siblings(ctx):
     fe = ctx.fa(f"{BF}.file_exists")
     r = R.single_return_value(fe)
     ctx.ob("C01-D6/DEP", r is not None and unparse(r.value) == "os.path.isfile(self.file_path)", fe.site(), "file_exists == the blob's path is a file", func=fe.fi.qualname)
+    # adoption of a file found on disk (restart): verified only together with a length, and the length is the file's size, stored directly
+    bi = ctx.fa(f"{BF}.__init__")
+    vs = [c for c in bi.calls(dotted_name="self.verified.set")]
+    for c in vs:
+        prev = R.prev_stmt(R.stmt_of(c))
+        ok = isinstance(prev, ast.Assign) and len(prev.targets) == 1 and unparse(prev.targets[0]) == "self.length" and \
+            bi.expanded_text(prev.value, keep=()) in ("int(os.stat(self.file_path).st_size)", "os.stat(self.file_path).st_size", "os.path.getsize(self.file_path)")
+        ctx.ob("C01-D6/DEP", ok, bi.site(c), "a file adopted at construction gets `length` := its size on disk, assigned directly (the checking setter refuses over-long files and would "
+               "leave a verified blob without a length), immediately before `verified` is set", func=bi.fi.qualname, key=f"C01-D6/DEP|{bi.fi.qualname}|adopt-length")
     # BlobFile.get_blob_writer refuses when the file is already there
     gw = ctx.fa(f"{BF}.get_blob_writer")
     for r in gw.stmts(ast.Return):
